@@ -125,6 +125,8 @@ def merge_parts(parts):
                 c[kk] += v[kk]
         m["violations"] += r["violations"]
         m["samples"] = (m["samples"] + r["samples"])[:3]
+        m["validated_paths"] = m.get("validated_paths", 0) + r.get("validated_paths", 0)
+        m["validation_disagreements"] = m.get("validation_disagreements", []) + r.get("validation_disagreements", [])
         m["ub_log"] = (m["ub_log"] + r["ub_log"])[:16]
     return m
 
@@ -300,6 +302,10 @@ def main():
                 inconclusive.append("%s: VACUOUS: expected check '%s' never reached" % (label, want))
         for s in res["samples"][:1]:
             samples.append({"job": label, "route": "S", "sample": s})
+        tot["replays"] += res.get("validated_paths", 0)
+        for dis in res.get("validation_disagreements", []):
+            if relevant(pid, dis.split(" ")[0]):
+                inconclusive.append("%s: symbolic model and concrete run of the real code disagree on %s" % (label, dis))
         for v in res["violations"]:
             if not relevant(pid, v["check"]):
                 continue
@@ -402,8 +408,9 @@ def main():
         "wall_s": round(wall, 2),
         "violations": len(new_violations),
     }
-    os.makedirs(os.path.join(HERE, "evidence"), exist_ok=True)
-    with open(os.path.join(HERE, "evidence", pid + ".json"), "w") as f:
+    evdir = os.environ.get("VERIF_EVIDENCE_DIR", os.path.join(HERE, "evidence"))   # seeded-change experiments write elsewhere
+    os.makedirs(evdir, exist_ok=True)
+    with open(os.path.join(evdir, pid + ".json"), "w") as f:
         json.dump(ev, f, indent=1)
 
     print("%s tier=%s jobs=%d paths=%d obligations=%d discharged=%d queries=%d solver=%.1fs wall=%.1fs"
